@@ -56,7 +56,12 @@ def r1_wrappers(rep, facts):
                 continue
             b = facts.body(d)
             fwd = [n for n in walk(b['body']) if n.get('k') == 'mcall' and n.get('name') == m]
-            rep.check(R, f'{outer}|{m}', len(fwd) >= 1, f'forwards to inner.{m}', f'`{outer}::{m}` does not call the inner `{m}`', facts.loc(b))
+            # ... on the deserializer it wraps, not on another one of the same crate (a document deserializer where a value is expected)
+            inner_base = strip_generics(inner)
+            on_inner = [n for n in fwd if any(strip_generics(c).startswith('<' + inner_base) or inner_base in strip_generics(c).split(' as ')[0] for c in callee_all(n))
+                        or inner_base in strip_generics((peel(n['recv']).get('t') or ''))]
+            rep.check(R, f'{outer}|{m}', len(fwd) >= 1 and len(on_inner) == len(fwd), f'forwards to inner.{m}',
+                      f'`{outer}::{m}` does not call `{m}` of the deserializer it wraps (`{inner}`)' + ('' if not fwd else f': it forwards to {sorted(set(c for n in fwd for c in callee_all(n)))[:2]}'), facts.loc(b))
     for sup, subs, why in SUPERSETS:
         if sup not in impls:
             continue
